@@ -45,6 +45,22 @@ pub mod fs {
         fn rename(&mut self, from: &Path, to: &Path) -> io::Result<()>;
         /// `unlink(2)`.
         fn remove(&mut self, path: &Path) -> io::Result<()>;
+        /// `open(O_CREAT | O_EXCL | O_WRONLY)`.
+        fn create_new(&mut self, path: &Path) -> io::Result<u64> {
+            self.create(path)
+        }
+        /// `fstat(2)`: only a disk that keeps real files can answer.
+        fn metadata(&mut self, _handle: u64) -> io::Result<Metadata> {
+            Err(io::Error::from(io::ErrorKind::Unsupported))
+        }
+        /// `ftruncate(2)`.
+        fn set_len(&mut self, _handle: u64, _size: u64) -> io::Result<()> {
+            Err(io::Error::from(io::ErrorKind::Unsupported))
+        }
+        /// `lseek(2)`.
+        fn seek(&mut self, _handle: u64, _pos: io::SeekFrom) -> io::Result<u64> {
+            Err(io::Error::from(io::ErrorKind::Unsupported))
+        }
     }
 
     thread_local! {
@@ -161,6 +177,30 @@ pub mod fs {
             }
         }
 
+        pub fn create_new<P: AsRef<Path>>(path: P) -> io::Result<Self> {
+            match current() {
+                Some(disk) => {
+                    let h = disk.borrow_mut().create_new(path.as_ref())?;
+                    Ok(Self(Inner::Sim(Guard(disk, h))))
+                }
+                None => Ok(Self(Inner::Real(std::fs::File::create_new(path)?))),
+            }
+        }
+
+        pub fn metadata(&self) -> io::Result<Metadata> {
+            match &self.0 {
+                Inner::Real(f) => f.metadata(),
+                Inner::Sim(g) => g.0.borrow_mut().metadata(g.1),
+            }
+        }
+
+        pub fn set_len(&self, size: u64) -> io::Result<()> {
+            match &self.0 {
+                Inner::Real(f) => f.set_len(size),
+                Inner::Sim(g) => g.0.borrow_mut().set_len(g.1, size),
+            }
+        }
+
         pub fn sync_all(&self) -> io::Result<()> {
             match &self.0 {
                 Inner::Real(f) => f.sync_all(),
@@ -194,6 +234,15 @@ pub mod fs {
             match &mut self.0 {
                 Inner::Real(f) => f.read(buf),
                 Inner::Sim(g) => g.0.borrow_mut().read(g.1, buf),
+            }
+        }
+    }
+
+    impl io::Seek for File {
+        fn seek(&mut self, pos: io::SeekFrom) -> io::Result<u64> {
+            match &mut self.0 {
+                Inner::Real(f) => f.seek(pos),
+                Inner::Sim(g) => g.0.borrow_mut().seek(g.1, pos),
             }
         }
     }
